@@ -1080,6 +1080,9 @@ def _math_function(op, *args):
     if name == "imag" and dtype == DataType.REAL:
         assert len(args) == 1
         return LiteralFloat(0.0)
+    if name in ("bessel_j", "bessel_y") and not isinstance(args[0], LiteralInt):
+        # jn / yn of the C library take an int order (a real order would be truncated)
+        raise RuntimeError("Bessel functions of non-integer order are not supported.")
     return MathFunction(name, args)
 
 
